@@ -3,6 +3,7 @@ package main
 import (
 	"encoding/binary"
 	"fmt"
+	"io"
 	"math/rand"
 	"net"
 	"net/http"
@@ -496,6 +497,36 @@ func c12Extras(env *runEnv, idp *fakeIdP, g *gwInstance, cf c12cfg, ci int, addr
 			}
 			emit("token-issued-through-10.1.2.3,203.0.113.9-presented-by-203.0.113.9", v)
 		}
+	}
+	// (2b) request headers do not decide which gateway the file names
+	if ci <= 1 {
+		b := newBrowser()
+		at := fmt.Sprintf("c12x-at-%d-%d-fwdhost", env.seed, ci)
+		idp.setToken(at, atBehaviour{kind: "valid", sub: "alice"})
+		idp.setCode("code-"+at, codeBehaviour{kind: "ok", accessToken: at, claims: map[string]interface{}{"preferred_username": "alice"}})
+		b.login(g, "/connect", "code-"+at)
+		_, plain, err0 := b.get(g.base() + "/connect")
+		want, _ := rdpField(plain, "gatewayhostname")
+		v := "exact"
+		if err0 != nil || want == "" {
+			v = "no-file"
+		}
+		for _, h := range [][2]string{{"X-Forwarded-Host", "gw.attacker.example:443"}, {"Forwarded", "host=gw.attacker.example"}, {"X-Original-Host", "gw.attacker.example"},
+			{"X-Forwarded-Server", "gw.attacker.example"}, {"X-Forwarded-Proto", "http"}, {"X-Forwarded-Port", "1"}} {
+			req, _ := http.NewRequest("GET", g.base()+"/connect", nil)
+			req.Header.Set(h[0], h[1])
+			resp, err := b.c.Do(req)
+			if err != nil {
+				v = "no-response-with-" + h[0]
+				continue
+			}
+			raw, _ := io.ReadAll(resp.Body)
+			resp.Body.Close()
+			if got, _ := rdpField(string(raw), "gatewayhostname"); v == "exact" && got != want {
+				v = fmt.Sprintf("gateway-named-%q-with-%s", got, h[0])
+			}
+		}
+		emit("file-names-the-configured-gateway-whatever-the-request-headers", v)
 	}
 	// (3) template settings the gateway does not control
 	if cf.hostileDefaults {
